@@ -134,6 +134,10 @@ const (
 type Exp struct {
 	K    ExpK
 	Lit  *Val
+	// LitT, when set, makes the printer render objects at struct-typed
+	// positions as struct literals (identifier keys).
+	LitT *T
+	Prog *Program
 	Id   string // param name (self) or call id
 	Path string // dotted projection (may be empty)
 	Arr  []*Exp
@@ -235,6 +239,9 @@ func writeParams(b *strings.Builder, kind string, ps []Param) {
 func (e *Exp) String() string {
 	switch e.K {
 	case ELit:
+		if e.LitT != nil && e.Prog != nil {
+			return litTyped(e.Prog, e.Lit, e.LitT)
+		}
 		return litString(e.Lit)
 	case ERefSelf:
 		if e.Path != "" {
@@ -268,6 +275,41 @@ func (e *Exp) String() string {
 		return "split " + e.Sub.String()
 	}
 	return "?"
+}
+
+// TLit is a literal of a known type.
+func TLit(p *Program, v *Val, t *T) *Exp { return &Exp{K: ELit, Lit: v, LitT: t, Prog: p} }
+
+// litTyped prints a literal, using struct-literal syntax where the type is a
+// struct.
+func litTyped(p *Program, v *Val, t *T) string {
+	if v == nil || t == nil {
+		return litString(v)
+	}
+	switch {
+	case v.K == VArr && t.K == TArray:
+		parts := make([]string, len(v.A))
+		for i, e := range v.A {
+			parts[i] = litTyped(p, e, t.Elem)
+		}
+		return "[" + strings.Join(parts, ", ") + "]"
+	case v.K == VObj && t.K == TTMap:
+		var parts []string
+		for _, k := range v.Keys() {
+			parts = append(parts, fmt.Sprintf("%q: %s", k, litTyped(p, v.O[k], t.Elem)))
+		}
+		return "{" + strings.Join(parts, ", ") + "}"
+	case v.K == VObj && t.K == TStruct:
+		sd := p.Struct(t.Name)
+		var parts []string
+		for _, f := range sd.Fields {
+			if fv, ok := v.O[f.Name]; ok {
+				parts = append(parts, fmt.Sprintf("%s: %s", f.Name, litTyped(p, fv, f.T)))
+			}
+		}
+		return "{" + strings.Join(parts, ", ") + "}"
+	}
+	return litString(v)
 }
 
 // litString prints a literal value in MRO syntax (JSON-like; objects are
